@@ -102,14 +102,14 @@ func (e *Engine) verifyFunc(fi *FuncInfo) *FuncResult {
 		return e.verifyClosure(fi, base, nth)
 	}
 	if fi.Decl == nil || fi.Decl.Body == nil {
-		if con != nil && con.Trusted {
+		if con != nil && con.isTrusted(e.curProp) {
 			res.Trust = true
 			return res
 		}
 		res.Outside = "function not found in the current tree (contract " + con.Where + ")"
 		return res
 	}
-	if con != nil && con.Trusted {
+	if con != nil && con.isTrusted(e.curProp) {
 		res.Trust = true
 		return res
 	}
@@ -163,6 +163,9 @@ func (e *Engine) verifyFunc(fi *FuncInfo) *FuncResult {
 	if con != nil {
 		pre := c.contractEnv(fi, nil, bind, nil, nil)
 		for _, r := range con.Requires {
+			if len(r.Props) > 0 && e.curProp != "" && !has(r.Props, e.curProp) {
+				continue // scoped to other properties
+			}
 			st.assume(pre.evalBool(r.Expr, st))
 		}
 	}
@@ -188,6 +191,17 @@ func (e *Engine) verifyFunc(fi *FuncInfo) *FuncResult {
 	if con != nil {
 		pre := c.contractEnv(fi, nil, bind, nil, nil)
 		for _, m := range con.Modifies {
+			if strings.HasPrefix(m, "*") {
+				// "*p": the cell a pointer to a non-struct value points at
+				if ex, err := parseExprCached(strings.TrimPrefix(m, "*")); err == nil {
+					ref := pre.eval(ex, entrySnap)
+					if pt, ok := types.Unalias(pre.subst(ref.Ty)).Underlying().(*types.Pointer); ok {
+						k := "ptr." + pre.sortOf(pt.Elem())
+						c.frameRefs[k] = append(c.frameRefs[k], ref.T)
+					}
+				}
+				continue
+			}
 			base, field, ok := cutLast(m, ".")
 			if !ok {
 				continue
@@ -666,6 +680,9 @@ func (c *Ctx) checkReturn(fi *FuncInfo, con *Contract, rstate, entrySnap *State,
 	if con != nil {
 		post := c.contractEnv(fi, entrySnap, bind, vals, nil)
 		for k, en := range con.Ensures {
+			if len(en.Props) > 0 && c.e.curProp != "" && !has(en.Props, c.e.curProp) {
+				continue // scoped to other properties
+			}
 			g := post.evalBool(en.Expr, rstate)
 			c.curGroup = en.Group
 			c.addObl(rstate, fmt.Sprintf("post#%d@ret%d", k, ri), "post", g, c.e.pos(fi.Decl.Pos()), "ensures "+en.Text, en.Props)
@@ -908,4 +925,9 @@ func (c *Ctx) closureContractEnv(env *Env, lit *ast.FuncLit, bind map[string]Val
 		ce.bound[k] = v
 	}
 	return ce
+}
+
+// isTrusted: the body is not verified in this property's check ("trusted" or "trusted{props}").
+func (con *Contract) isTrusted(prop string) bool {
+	return con.Trusted && (len(con.TrustedProps) == 0 || prop == "" || has(con.TrustedProps, prop))
 }
